@@ -39,6 +39,7 @@
 (***************************************************************************)
 EXTENDS Gen_Schema
 CONSTANTS FixFound,   \* TRUE: the code after repair 31fcde9 (EndObject of a rebuilt slot restores the saved found count)
+          FixEmpty,   \* TRUE: the code after repair 9e8ca0e (skipped members are counted; '{}' replaces a non-empty object)
           FixArr      \* TRUE: the code after repair 5a90f66 (StartArray leaves update mode while the replacement array is built)
 
 None == <<0>>                      \* "no node" (paths are sequences of indices >= 1)
@@ -91,7 +92,8 @@ ObjOf(items, pairs) == [k |-> "obj", m |-> [i \in 1..pairs |-> <<items[2 * i - 1
 EndObj(s, pairs) ==
   IF s.par # None /\ GetAt(s.doc, s.par).k = "obj"
   THEN IF s.pst = <<>> \/ s.fst = <<>> THEN Ub(s)
-       ELSE [s EXCEPT !.par = Last(s.pst), !.pst = Front(s.pst), !.cur = None, !.fc = Last(s.fst), !.fst = Front(s.fst)]
+       ELSE [s EXCEPT !.doc = IF FixEmpty /\ pairs = 0 THEN SetAt(s.doc, s.par, [k |-> "obj", m |-> <<>>]) ELSE s.doc,
+                      !.par = Last(s.pst), !.pst = Front(s.pst), !.cur = None, !.fc = Last(s.fst), !.fst = Front(s.fst)]
   ELSE IF s.fr = <<>> THEN Ub(s)
   ELSE LET f == Last(s.fr) IN
        IF Len(f.items) # 2 * pairs \/ f.kind \in {"arr", "slotarr"} THEN Ub(s)
@@ -139,7 +141,8 @@ Feed(s, v) ==
 FeedMembers(s, m, i, cnt) ==
   IF s.ub \/ i > Len(m) THEN [s |-> s, cnt |-> cnt]
   ELSE LET r == KeyEv(s, m[i][1]) IN
-       IF r.found THEN FeedMembers(Feed(r.s, m[i][2]), m, i + 1, cnt + 1) ELSE FeedMembers(r.s, m, i + 1, cnt)
+       IF r.found THEN FeedMembers(Feed(r.s, m[i][2]), m, i + 1, cnt + 1)
+       ELSE FeedMembers(r.s, m, i + 1, IF FixEmpty THEN cnt + 1 ELSE cnt)      \* parser.h: a skipped member is counted since 9e8ca0e
 FeedElems(s, e, i) == IF s.ub \/ i > Len(e) THEN s ELSE FeedElems(Feed(s, e[i]), e, i + 1)
 
 ISchema(E, V) == Feed(InitSt(E), V)
@@ -167,7 +170,7 @@ EmptyObjShape(E, V) ==
 
 PairOk(E, V) ==
   \A r \in {ISchema(E, V)} :
-    /\ ~r.ub => r.doc = SchemaMergeDev(E, V)
+    /\ ~r.ub => r.doc = (IF FixEmpty THEN SchemaMerge(E, V) ELSE SchemaMergeDev(E, V))
     /\ r.ub => (~FixArr /\ ArrObjShape(E, V))      \* with the repaired StartArray the handler never leaves its domain
     /\ SchemaMergeDev(E, V) # SchemaMerge(E, V) => EmptyObjShape(E, V)
 ModelOk == \A E \in {DenT(tree)} : \A V \in {DenT(tree2)} : PairOk(E, V)
